@@ -3246,11 +3246,8 @@ impl Zeroconf {
                     }
                 }
             } else {
-                // Our own probes are looped back to us: they are no competitor.
-                let from_myself = intf.addrs.iter().any(|addr| addr.ip() == querier_ip);
-
                 // Simultaneous Probe Tiebreaking (RFC 6762 section 8.2)
-                if qtype == RRType::ANY && msg.num_authorities() > 0 && !from_myself {
+                if qtype == RRType::ANY && msg.num_authorities() > 0 {
                     let probing_name = dns_registry.probing_name(q_name);
                     if let Some(probe) = probing_name
                         .as_ref()
@@ -3264,8 +3261,11 @@ impl Zeroconf {
 
                 // A name that finished probing is ours even if its service is not announced
                 // yet (its other name may still be probing): defend it against other probers.
-                // (Not against ourselves: a re-registration must not answer its own probes.)
-                let defending = !from_myself && qtype == RRType::ANY && msg.num_authorities() > 0;
+                // (Not while we probe it again ourselves: a re-registration hears its own probes,
+                // and another daemon on this machine sends from the same address as we do.)
+                let defending = qtype == RRType::ANY
+                    && msg.num_authorities() > 0
+                    && !dns_registry.probing.contains_key(q_name);
 
                 if qtype == RRType::A || qtype == RRType::AAAA || qtype == RRType::ANY {
                     for service in self.my_services.values() {
